@@ -259,6 +259,39 @@ func (w *World) EnabledKeys() (ks []*attest.Key) {
 	return ks
 }
 
+// DisabledKeys returns the universe keys that a successful disable-attester of this history named
+// (or that the genesis listed) and that no enabled entry spells any more.
+func (w *World) DisabledKeys() (ks []*attest.Key) {
+	enabled := map[int]bool{}
+	for _, k := range w.EnabledKeys() {
+		enabled[k.Idx] = true
+	}
+	seen := map[int]bool{}
+	add := func(sp string) {
+		if i := KeyOfSpelling(sp); i >= 0 && !enabled[i] && !seen[i] {
+			seen[i] = true
+			ks = append(ks, attest.K(i))
+		}
+	}
+	if w.Gen != nil {
+		for _, a := range w.Gen.Attesters {
+			add(a)
+		}
+	}
+	for _, st := range w.Steps {
+		if !st.OK() {
+			continue
+		}
+		for _, m := range st.Msgs {
+			if d, ok := m.(*types.MsgDisableAttester); ok {
+				add(d.Attester)
+			}
+		}
+	}
+	attest.SortByAddr(ks)
+	return ks
+}
+
 // HonestAttestation signs message with the first threshold enabled keys (by
 // address), or nil if the enabled universe keys cannot reach the threshold.
 func (w *World) HonestAttestation(message []byte, st attest.SigStyle) []byte {
@@ -302,7 +335,24 @@ func (g *G) BadAttestation(label string, message []byte) ([]byte, string) {
 	if t > 40 || t < 0 {
 		t = 40 // hostile genesis thresholds: keep generated attestations small
 	}
-	switch k := g.Int(label+"/class", 0, 8); {
+	switch k := g.Int(label+"/class", 0, 10); {
+	case k == 9 && good != nil && t >= 1 && len(ks) >= t:
+		// a formerly enabled, since disabled key in one slot (else an unknown key)
+		x := attest.K(20 + g.Int(label+"/u", 0, 5))
+		if ds := g.W.DisabledKeys(); len(ds) > 0 {
+			x = Pick(g, label+"/dk", ds)
+		}
+		signers := append([]*attest.Key{x}, ks[:t-1]...)
+		return attest.Attest(message, signers, attest.SigStyle{}), "disabled-signer"
+	case k == 10 && good != nil && t >= 2:
+		// one signer twice: the second signature is the high-s twin of the first (other bytes, same signer)
+		b := append([]byte{}, good...)
+		copy(b[65:130], attest.Sign(message, ks[0], attest.SigStyle{Twin: true}))
+		if g.Bool(label + "/twinfirst") {
+			copy(b[:65], b[65:130])
+			copy(b[65:130], good[:65])
+		}
+		return b, "duplicate-twin"
 	case k == 0 || good == nil:
 		return g.Bytes(label+"/raw", 65*maxInt(t, 1)), "random-bytes"
 	case k == 1:
@@ -543,6 +593,11 @@ func (g *G) Inbound(label string, o InboundOpts) Inbound {
 			}
 		}
 		msg.Body = body
+		if o.ToModule == nil && g.Pct(label+"/nearmod", 6) {
+			// everything a mint needs, but the recipient differs from the padded module address in its high 12 bytes
+			msg.Recip[g.Int(label+"/nmb", 0, 11)] = byte(g.Int(label+"/nmv", 1, 255))
+			toModule = false
+		}
 	} else {
 		for {
 			msg.Recip = g.B32(label+"/recip", o.Submitter)
@@ -631,6 +686,12 @@ func (g *G) DepositOp(label string, validPct int) *Op {
 		}
 	} else {
 		amt = g.Amount(label+"/amt", lim)
+	}
+	if valid && g.Pct(label+"/tokfold", 5) {
+		// otherwise valid, but the burn token only case-folds to the minting denom (U+017F, U+212A)
+		if t := strings.Replace(strings.Replace(tok, "s", "\u017f", 1), "k", "\u212a", 1); t != tok {
+			tok = t
+		}
 	}
 	var mr []byte
 	if valid {
@@ -981,7 +1042,7 @@ func (g *G) drawGenesis(o GenOpts) *GenSpec {
 	if o.StartNonce != nil {
 		gs.NextNonce = *o.StartNonce
 	} else {
-		gs.NextNonce = rapid.SampledFrom([]uint64{0, 0, 1, 1<<32 - 1, 1 << 32, 1 << 63, 1<<64 - 1000}).Draw(t, "nextnonce")
+		gs.NextNonce = rapid.SampledFrom([]uint64{0, 0, 1, 1<<31 - 1, 1<<32 - 2, 1<<32 - 1, 1 << 32, 1<<63 - 2, 1<<63 - 1, 1 << 63, 1<<64 - 1000}).Draw(t, "nextnonce")
 	}
 	denom := "uusdc"
 	if o.MixedDenom && rapid.IntRange(0, 4).Draw(t, "mixeddenom") == 0 {
